@@ -1,6 +1,7 @@
 #!/bin/bash
 # seedtool.sh confirm <ID> [demo_dir]   - confirm a seeded change in its scratch worktree /tmp/seed/<ID>
 # seedtool.sh run <ID> <check>...       - apply /verif/seeded/<ID>/patch.diff to /repo, run checks (quick), revert
+# seedtool.sh runalt <ID> <check>...    - the same on a scratch worktree (VERIF_ALT_REPO), leaving /repo and /verif/evidence alone
 set -u
 export GOFLAGS=-mod=mod GOPROXY=off GOSUMDB=off
 cmd=$1; id=$2; shift 2
@@ -27,5 +28,16 @@ run)
     echo "== $c on seeded $id"; (cd /verif && ./verif check $c quick 2>&1 | grep -E "^(VIOLATION|KNOWN|run |HARNESS|BUILD)" | cut -c1-260)
   done
   cd /repo && git checkout -- . && git status --short | head -3
+  ;;
+runalt)
+  # like run, but on a scratch worktree of /repo's HEAD: /repo itself is not touched (a check may be running on it)
+  p=/verif/seeded/$id/patch.diff; wt=/var/tmp/alt/$id; out=/var/tmp/alt-out/$id
+  rm -rf $wt $out; mkdir -p /var/tmp/alt $out
+  git -C /repo worktree add -q --detach $wt HEAD || exit 2
+  (cd $wt && git apply $p) || { echo "patch does not apply"; git -C /repo worktree remove --force $wt; exit 2; }
+  for c in "$@"; do
+    echo "== $c on seeded $id (scratch tree)"; (cd /verif && VERIF_ALT_REPO=$wt VERIF_ALT_OUT=$out ./verif check $c quick 2>&1 | grep -E "^(VIOLATION|KNOWN|run |HARNESS|BUILD)" | cut -c1-260)
+  done
+  git -C /repo worktree remove --force $wt; rm -rf $out
   ;;
 esac
